@@ -34,6 +34,8 @@ type ParamSpec struct {
 	HasDef  bool   `json:"has_default"`
 	// PathLevel: declared on the path item instead of the operation
 	PathLevel bool `json:"path_level,omitempty"`
+	// Style (query arrays): "" (form) | pipeDelimited | spaceDelimited
+	Style string `json:"style,omitempty"`
 	// Empty (query, with Present): declared with allowEmptyValue and sent as "name=": it is present, so
 	// no default may be written next to it
 	Empty bool `json:"empty,omitempty"`
@@ -66,6 +68,9 @@ func TestReplay(t *testing.T) { prop.Replay(t) }
 func paramDefault(p ParamSpec) any {
 	switch p.Kind {
 	case "integer":
+		if p.Name == "pb" {
+			return 1000000.0 // seven digits: has to be written as 1000000, not with an exponent
+		}
 		return 5.0
 	case "string":
 		return "dflt"
@@ -78,7 +83,7 @@ func paramSchema(p ParamSpec) M {
 	var s M
 	switch p.Kind {
 	case "integer":
-		s = M{"type": "integer", "maximum": 100.0}
+		s = M{"type": "integer", "maximum": 5000000.0}
 	case "string":
 		s = M{"type": "string", "minLength": 1.0}
 	default:
@@ -212,6 +217,9 @@ func build(c Case) (*openapi3.T, error) {
 		if p.Explode != "" {
 			pm["explode"] = p.Explode == "true"
 		}
+		if p.Style != "" {
+			pm["style"] = p.Style
+		}
 		if p.Empty {
 			pm["allowEmptyValue"] = true
 		}
@@ -296,7 +304,11 @@ func newRequest(c Case) *http.Request {
 		}
 		switch p.In {
 		case "query":
-			s, _ := styleser.Query("form", explode, p.Name, v)
+			style := "form"
+			if p.Style != "" {
+				style = p.Style
+			}
+			s, _ := styleser.Query(style, explode, p.Name, v)
 			if p.Empty {
 				s = p.Name + "="
 			}
@@ -607,6 +619,9 @@ func gen(t *rapid.T) Case {
 		}
 		if p.In == "cookie" {
 			p.Explode = "false" // the cookie default explode=true cannot carry arrays (C05 finding)
+		}
+		if p.In == "query" && p.Kind == "array" && rapid.IntRange(0, 2).Draw(t, "delimstyle") == 0 {
+			p.Style = rapid.SampledFrom([]string{"pipeDelimited", "spaceDelimited"}).Draw(t, "delimstylev")
 		}
 		if p.In == "query" && p.Present && p.Kind != "array" && rapid.IntRange(0, 3).Draw(t, "emptyallowed") == 0 {
 			p.Empty = true
